@@ -349,6 +349,58 @@ pub fn loop_with_pair_programs() -> Vec<Vec<Stmt>> {
     out
 }
 
+
+/// The loop-exit shapes (a loop around two try-like constructs; a loop whose body holds a try-like construct
+/// around an inner loop and then a second one) at *script level* - not inside a function - and repeated forty
+/// times by an enclosing loop: code that pops one slot too many or too few per exit runs off the bottom or
+/// the top of the operand stack there (C02: the host never panics).  Returns source texts.
+pub fn script_level_repeated() -> Vec<String> {
+    let mut out = Vec::new();
+    let rep = |body: Vec<Stmt>| -> String {
+        let mut prog = prelude();
+        prog.push(var_stmt("zz_keep", s("a script-level local above the loop")));
+        prog.push(st(StmtKind::For("zz_rep".into(), bin(BinOp::Range, num(0.0), num(40.0)), body)));
+        prog.push(print_stmt(var("zz_keep")));
+        prog.push(p("end"));
+        // the locals of the repeated body live in a block so that the script-level code has locals, too
+        print_program(&[block(prog)], false)
+    };
+    // the same statements directly at script level, where the loop counters are globals and nothing lies
+    // below the statement's own temporaries on the operand stack
+    let bare = |body: Vec<Stmt>| -> String {
+        let mut prog = prelude();
+        prog.extend(body);
+        prog.push(p("end"));
+        print_program(&prog, false)
+    };
+    for n in loop_try_try_nests() {
+        if matches!(n.leaf, Leaf::Return | Leaf::CallRif) {
+            continue;
+        }
+        out.push(rep(n.build(0)));
+        out.push(bare(n.build(0)));
+    }
+    let loops = [Cons::While2, Cons::For];
+    let trys = [Cons::TcBody, Cons::TcCatch, Cons::TfBody, Cons::TfFinally, Cons::TcfBody, Cons::TcfCatch, Cons::TcfFinally];
+    for l in loops {
+        for a in trys {
+            for fl in [Leaf::Fall, Leaf::Break, Leaf::Continue] {
+                for b in trys {
+                    for sl in [Leaf::Fall, Leaf::Break, Leaf::Continue] {
+                        let first = Nest { cons: vec![(a, 0), (Cons::For, 0)], leaf: fl };
+                        let second = Nest { cons: vec![(b, 1)], leaf: sl };
+                        let mut body = first.build(10);
+                        body.extend(second.build(20));
+                        out.push(rep(wrap(l, 1, 0, body.clone())));
+                        out.push(bare(wrap(l, 1, 0, body)));
+                    }
+                }
+            }
+        }
+    }
+    out
+}
+
 pub fn loop_with_pair_cases() -> Vec<Case> {
     loop_with_pair_programs()
         .into_iter()
